@@ -13,7 +13,12 @@ use tendril::{Atomic, NonAtomic};
 pub fn run_one(family: usize, seed: u64, nops: usize, st: &mut Stats) -> Result<usize, (String, String, String)> {
     let mut rng = Rng::new(seed);
     let name;
-    let r = catch(|| match family % 13 {
+    let r = catch(|| match family % 16 {
+        // the pool histories of C12 (sibling views of one buffer pushed onto each other, truly adjacent or
+        // adjacent only under a miscounted offset), here without the allocator audit: content vs model
+        13 => ("views:UTF8/NonAtomic", super::c12::audited_history::<UTF8, NonAtomic>(&mut rng, nops, st, false).map_err(|e| (String::new(), e))),
+        14 => ("views:WTF8/Atomic", super::c12::audited_history::<WTF8, Atomic>(&mut rng, nops, st, false).map_err(|e| (String::new(), e))),
+        15 => ("views:Bytes/NonAtomic", super::c12::audited_history::<Bytes, NonAtomic>(&mut rng, nops, st, false).map_err(|e| (String::new(), e))),
         0 => ("Bytes/NonAtomic", run_history::<Bytes, NonAtomic>(&mut rng, nops, st)),
         1 => ("UTF8/NonAtomic", run_history::<UTF8, NonAtomic>(&mut rng, nops, st)),
         2 => ("ASCII/NonAtomic", run_history::<ASCII, NonAtomic>(&mut rng, nops, st)),
@@ -73,7 +78,7 @@ pub fn run(args: &Args) -> (Meta, Stats) {
                 break;
             }
             let hseed = mix(mix(seed ^ 0xC11, shard as u64), k);
-            let family = (k % 13) as usize;
+            let family = (k % 16) as usize;
             let nops = if sanit { 60 } else { 20 + (hseed % 380) as usize };
             k += 1;
             st.case(Some(hseed));
